@@ -617,4 +617,144 @@ MUTANTS = [
                 break;
             }
 """)]},
+    # ---------------- neutral (behaviour preserving) edits: must stay silent ----------------
+    {"id": "n-c05-split-filter", "property": "C05", "neutral": True, "also": ["C01", "C02"],
+     "edits": [("src/pdu_loop/pdu_rx.rs", """        if raw_packet.ethertype() != ETHERCAT_ETHERTYPE || raw_packet.src_addr() == self.source_mac
+        {
+            fmt::trace!("Ignore frame");
+
+            return Ok(ReceiveAction::Ignored);
+        }""", """        if raw_packet.ethertype() != ETHERCAT_ETHERTYPE {
+            return Ok(ReceiveAction::Ignored);
+        }
+
+        let from_us = raw_packet.src_addr() == self.source_mac;
+
+        if from_us {
+            fmt::trace!("Ignore frame");
+
+            return Ok(ReceiveAction::Ignored);
+        }""")]},
+    {"id": "n-c03-send-if-else", "property": "C03", "neutral": True, "also": ["C02", "C06"],
+     "edits": [("src/pdu_loop/frame_element/sendable_frame.rs", """        match send(self.as_bytes()) {
+            Ok(bytes_sent) if bytes_sent == len => {
+                self.mark_sent();
+
+                Ok(bytes_sent)
+            }
+            Ok(bytes_sent) => {
+                self.release_sending_claim();
+
+                Err(Error::PartialSend {
+                    len,
+                    sent: bytes_sent,
+                })
+            }
+            Err(res) => {
+                self.release_sending_claim();
+
+                Err(res)
+            }
+        }""", """        let outcome = send(self.as_bytes());
+
+        let bytes_sent = match outcome {
+            Ok(n) => n,
+            Err(res) => {
+                self.release_sending_claim();
+
+                return Err(res);
+            }
+        };
+
+        if len == bytes_sent {
+            self.mark_sent();
+
+            Ok(bytes_sent)
+        } else {
+            self.release_sending_claim();
+
+            Err(Error::PartialSend {
+                len,
+                sent: bytes_sent,
+            })
+        }""")]},
+    {"id": "n-c04-reorder-init", "property": "C04", "neutral": True,
+     "edits": [("src/pdu_loop/frame_element/frame_box.rs", "        ethernet_frame.set_src_addr(MAINDEVICE_ADDR);\n        ethernet_frame.set_dst_addr(EthernetAddress::BROADCAST);", "        ethernet_frame.set_dst_addr(EthernetAddress::BROADCAST);\n        ethernet_frame.set_src_addr(MAINDEVICE_ADDR);")]},
+    {"id": "n-c12-cmp-min", "property": "C12", "neutral": True, "also": ["C13"],
+     "edits": [("src/eeprom/mod.rs", "            .get_mut(0..requested_read_len.min(max_read))", "            .get_mut(0..core::cmp::min(max_read, requested_read_len))")]},
+    {"id": "n-c13-match-checked-add", "property": "C13", "neutral": True,
+     "edits": [("src/subdevice/eeprom.rs", """            let Some(next) = word_addr.checked_add(len_words) else {
+                fmt::warn!(
+                    "EEPROM category {:?} length {:#06x} overruns the address space. EEPROM could be empty or corrupt.",
+                    category_type,
+                    len_words
+                );
+
+                break Ok(None);
+            };
+
+            word_addr = next;""", """            word_addr = match word_addr.checked_add(len_words) {
+                Some(following) => following,
+                None => {
+                    fmt::warn!(
+                        "EEPROM category {:?} length {:#06x} overruns the address space. EEPROM could be empty or corrupt.",
+                        category_type,
+                        len_words
+                    );
+
+                    break Ok(None);
+                }
+            };""")]},
+    {"id": "n-c14-hoist-words", "property": "C14", "neutral": True,
+     "edits": [("src/subdevice/eeprom.rs", """        // Write new alias address
+        self.start_at((STATION_ALIAS_POSITION.start / 2) as u16, 2)
+            .write_all(&new_alias.to_le_bytes())
+            .await?;""", """        // Write new alias address
+        let alias_word = (STATION_ALIAS_POSITION.start / 2) as u16;
+        let alias_bytes = new_alias.to_le_bytes();
+        self.start_at(alias_word, 2).write_all(&alias_bytes).await?;""")]},
+    {"id": "n-c15-swap-operands", "property": "C15", "neutral": True, "also": ["C16"],
+     "edits": [("src/mailbox/coe/mod.rs", "        } else if headers.command == CoeCommand::Abort {", "        } else if CoeCommand::Abort == headers.command {")]},
+    {"id": "n-c16-if-let-checked-sub", "property": "C16", "neutral": True, "also": ["C15"],
+     "edits": [("src/mailbox/coe/mod.rs", """                    let mut chunk_len =
+                        usize::from(headers.header.length.checked_sub(3).ok_or(Error::Internal)?);""", """                    let Some(segment_len) = headers.header.length.checked_sub(3) else {
+                        return Err(Error::Internal);
+                    };
+                    let mut chunk_len = usize::from(segment_len);""")]},
+    {"id": "n-c17-rename-fold", "property": "C17", "neutral": True,
+     "edits": [("src/subdevice/ports.rs", ".fold(0u32, |total, delta| total.saturating_add(delta))", ".fold(0u32, |sum_so_far, d| sum_so_far.saturating_add(d))")]},
+    {"id": "n-c18-reorder-range-checks", "property": "C18", "neutral": True,
+     "edits": [("src/subdevice_group/mod.rs", """        let sync0_period = u64::from(u32::try_from(sync0_period.as_nanos())?);
+
+        let first_pulse_delay = u64::from(u32::try_from(start_delay.as_nanos())?);""", """        let first_pulse_delay = u64::from(u32::try_from(start_delay.as_nanos())?);
+
+        let sync0_period = u64::from(u32::try_from(sync0_period.as_nanos())?);""")]},
+    {"id": "n-c09-rename-loop-var", "property": "C09", "neutral": True,
+     "edits": [("src/maindevice.rs", """        for subdevice_idx in 0..num_subdevices {
+            let configured_address = BASE_SUBDEVICE_ADDRESS.wrapping_add(subdevice_idx);
+
+            let subdevice = SubDevice::new(self, subdevice_idx, configured_address).await?;""", """        for position in 0..num_subdevices {
+            let station_address = BASE_SUBDEVICE_ADDRESS.wrapping_add(position);
+
+            fmt::trace!("Reading SubDevice at position {}", position);
+
+            let subdevice = SubDevice::new(self, position, station_address).await?;""")]},
+    {"id": "n-c10-log-in-transition", "property": "C10", "neutral": True,
+     "edits": [("src/subdevice_group/mod.rs", "        fmt::debug!(\"Waiting for group state {}\", desired_state);\n", "        fmt::debug!(\"Waiting for group state {}\", desired_state);\n        fmt::trace!(\"group has {} members\", self.len());\n")]},
+    {"id": "n-c07-hoist-start", "property": "C07", "neutral": True, "also": ["C18", "C20"],
+     "edits": [("src/subdevice_group/mod.rs", """            // Start offset in the EtherCAT address space
+            let pushed_chunk = if !chunk.is_empty() {
+                let start_addr = self.inner().pdi_start.start_address + total_bytes_sent as u32;""", """            // Start offset in the EtherCAT address space
+            let pushed_chunk = if !chunk.is_empty() {
+                let group_start = self.inner().pdi_start.start_address;
+                let start_addr = group_start + total_bytes_sent as u32;""")]},
+    {"id": "n-c08-rename", "property": "C08", "neutral": True,
+     "edits": [("src/subdevice/configuration.rs", "        *global_offset = global_offset.increment_byte_aligned(sm_bit_len);", "        let advanced = global_offset.increment_byte_aligned(sm_bit_len);\n        *global_offset = advanced;")]},
+    {"id": "n-c11-log-in-builder", "property": "C11", "neutral": True,
+     "edits": [("src/command/reads.rs", "        self.common(maindevice, len).await?.maybe_wkc(self.wkc)", "        let response = self.common(maindevice, len).await?;\n\n        fmt::trace!(\"read {} bytes\", len);\n\n        response.maybe_wkc(self.wkc)"),
+               ("src/command/reads.rs", "use crate::{", "use crate::fmt;\nuse crate::{")]},
+    {"id": "n-c19-comment-generator", "property": "C19", "neutral": True,
+     "edits": [("ethercrab-wire-derive/src/generate_struct.rs", "        // Small optimisation\n        if ty_name == \"u8\" || ty_name == \"bool\" {", "        // Small optimisation (single byte types can be ORed in directly)\n        if ty_name == \"bool\" || ty_name == \"u8\" {")]},
+    {"id": "n-c20-reorder-fields", "property": "C20", "neutral": True,
+     "edits": [("src/pdu_loop/storage.rs", "    frame_idx: AtomicU8,\n    pdu_idx: AtomicU8,\n    is_split: AtomicBool,", "    pdu_idx: AtomicU8,\n    frame_idx: AtomicU8,\n    is_split: AtomicBool,")]},
 ]
